@@ -455,4 +455,110 @@ Proof.
     destruct (eval_dallots e tl ptl f1 b1) as [[[f2 b2] ps2]| |]; bnd; try reflexivity.
     rewrite app_assoc. reflexivity.
 Qed.
+
+(* ---------- statements ---------- *)
+Definition vm_of (ms : mstate) (stk : list vval) : vmstate :=
+  St stk (mbal ms) (List.concat (mposts ms)) (mtx ms) (macc ms).
+
+Lemma concat_snoc {A} (l : list (list A)) x : List.concat (l ++ [x]) = List.concat l ++ x.
+Proof. rewrite concat_app. simpl. rewrite app_nil_r. reflexivity. Qed.
+
+Lemma exec_val v : chk_val te v = true -> forall k stk b pp tx ac,
+  exec L (code (gen_val ve v) ++ k) (St stk b pp tx ac) = do x <- eval_val e v; exec L k (St (XV x :: stk) b pp tx ac).
+Proof.
+  intros Hc k stk b pp tx ac. destruct v; simpl in Hc; try (simpl; reflexivity).
+  - simpl gen_val. rewrite (exec_mon m Hc). simpl eval_val. destruct (eval_mon e m) as [[a o]| |]; reflexivity.
+  - unfold declared in Hc. destruct (lookup te x) as [t|] eqn:Et; [|discriminate].
+    destruct (denote_var _ _ Et) as [v [H1 [H2 H3]]]. simpl. rewrite H3, H1. reflexivity.
+Qed.
+
+Lemma chk_mon_leftmost m : chk_mon te m = true -> chk_mon te (leftmost m) = true.
+Proof. induction m; simpl; intros Hc; try assumption; apply andb_prop in Hc; destruct Hc as [Hc _]; apply andb_prop in Hc; destruct Hc as [H1 _]; auto. Qed.
+
+Lemma denote_mon_res m : chk_mon te m = true ->
+  denote e (mon_res ve m) = XV (VMonetary (fst (leaf_value e m)) (snd (leaf_value e m))).
+Proof.
+  intros Hc. pose proof (chk_mon_leftmost m Hc) as Hl. unfold mon_res, leaf_value.
+  destruct (leftmost m) as [a n|x| |] eqn:El; simpl in Hl.
+  - apply andb_prop in Hl. destruct Hl as [Ha _]. simpl. rewrite (denote_asset _ Ha). reflexivity.
+  - destruct (denote_var _ _ (has_ty_lookup _ _ Hl)) as [v [H1 [H2 H3]]]. rewrite H3, H1. destruct v; try discriminate. reflexivity.
+  - exfalso. clear - El. induction m; simpl in El; try discriminate; auto.
+  - exfalso. clear - El. induction m; simpl in El; try discriminate; auto.
+Qed.
+
+Lemma eval_alloc_sources_len A ma : forall l parts b fs b1, List.length parts = List.length l ->
+  eval_alloc_sources e A ma l parts b = Ok (fs, b1) -> List.length fs = List.length l.
+Proof.
+  induction l as [|[p s] tl IH]; intros parts b fs b1 Hl H; simpl in H.
+  - destruct parts; inv H; reflexivity.
+  - destruct parts as [|x ptl]; [discriminate|]. assert (List.length ptl = List.length tl) as Hl' by (simpl in Hl; lia).
+    dobind H fb Es. destruct fb as [f0 b0]. dobind H rb Et. destruct rb as [res b2].
+    dobind H gb El. destruct gb as [gs b3]. inv H. simpl. f_equal. apply (IH _ _ _ _ Hl' El).
+Qed.
+
+Lemma exec_stmt_correct s : chk_stmt te s = true -> forall k stk ms,
+  exec L (code (gen_stmt ve s) ++ k) (vm_of ms stk) = do ms1 <- exec_stmt e s ms; exec L k (vm_of ms1 stk).
+Proof.
+  intros Hc k stk ms. unfold vm_of. destruct s as [m vs d|a src d|key v|a key v|m a|a acc|]; simpl in Hc.
+  - (* send *) apply andb_prop in Hc. destruct Hc as [Hc Hd]. apply andb_prop in Hc. destruct Hc as [Hm Hvs].
+    simpl gen_stmt. norm. rewrite code_mon_alloc. simpl app. simpl exec_stmt. unfold exec_send, eval_vsource.
+    pose proof (fun k0 stk0 b0 ps0 tx0 ac0 => exec_push_mon_asset m Hm k0 (St stk0 b0 ps0 tx0 ac0)) as Hpa. bnd. cbv beta in Hpa.
+    destruct vs as [src|l]; simpl in Hvs.
+    + destruct (chk_source te false src) as [r0|] eqn:Es; [|discriminate]. norm.
+      rewrite (proj1 (exec_source (mon_asset e m) _ Hpa) _ _ _ Es).
+      destruct (eval_source e (mon_asset e m) src (mbal ms)) as [[f b1]| |]; bnd; try reflexivity.
+      rewrite (exec_mon m Hm). destruct (eval_mon e m) as [[ma mo]| |]; bnd; try reflexivity.
+      rewrite (exec_take_from_source (fallback_of src) f ma mo _ _ b1 _ _ _ (proj1 chk_fallback _ _ _ Es)).
+      destruct (take_from_source e (fallback_of src) f ma mo b1) as [[res b2]| |]; bnd; try reflexivity.
+      rewrite (proj1 exec_dest d Hd). destruct (eval_dest e d res b2) as [[[lf b3] ps1]| |]; bnd; try reflexivity.
+      simpl. bnd. rewrite concat_snoc. reflexivity.
+    + apply andb_prop in Hvs. destruct Hvs as [Hp Hss]. norm.
+      rewrite (exec_mon m Hm). destruct (eval_mon e m) as [[ma mo]| |]; bnd; try reflexivity.
+      rewrite (exec_allotment _ Hp). destruct (make_allotment e (map fst l)) as [al| |] eqn:Ea; bnd; try reflexivity.
+      simpl. bnd. destruct mo as [x|]; [|reflexivity]. norm.
+      assert (List.length (allocate x al) = List.length l) as Hlen.
+      { rewrite AllotProofs.allocate_length. unfold make_allotment in Ea.
+        destruct (new_allotment (map (eval_portion e) (map fst l))) as [|a0] eqn:En; [discriminate|]. inv Ea.
+        unfold new_allotment in En. destruct (Nat.ltb 1 _); [discriminate|]. destruct (Qlt_le_dec _ _); [discriminate|].
+        inv En. rewrite !map_length. reflexivity. }
+      pose proof (exec_alloc_sources (mon_asset e m) _ ma Hpa l [] (allocate x al) Hlen Hss) as Hal. simpl in Hal.
+      fold (mparts ma (allocate x al)). rewrite Hal.
+      destruct (eval_alloc_sources e (mon_asset e m) ma l (allocate x al) (mbal ms)) as [[fs b1]| |] eqn:Ef; bnd; try reflexivity.
+      simpl. bnd. rewrite <- (eval_alloc_sources_len _ _ _ _ _ _ _ Hlen Ef), vm_assemble_spec.
+      destruct (assemble fs) as [f| |]; bnd; try reflexivity. norm.
+      rewrite (proj1 exec_dest d Hd). destruct (eval_dest e d f b1) as [[[lf b3] ps1]| |]; bnd; try reflexivity.
+      simpl. bnd. rewrite concat_snoc. reflexivity.
+  - (* send all *) apply andb_prop in Hc. destruct Hc as [Hc Hd]. apply andb_prop in Hc. destruct Hc as [Ha Hs].
+    destruct (chk_source te true src) as [r0|] eqn:Es; [|discriminate].
+    simpl gen_stmt. simpl code. norm. simpl exec_stmt. unfold exec_send_all.
+    assert (forall k0 stk0 b0 ps0 tx0 ac0, exec L (code [ev true (res_asset ve a)] ++ k0) (St stk0 b0 ps0 tx0 ac0)
+                                           = exec L k0 (St (XV (VAsset (eval_asset e a)) :: stk0) b0 ps0 tx0 ac0)) as Hpa.
+    { intros. simpl. rewrite (denote_asset _ Ha). reflexivity. }
+    rewrite (proj1 (exec_source (eval_asset e a) _ Hpa) _ _ _ Es).
+    destruct (eval_source e (eval_asset e a) src (mbal ms)) as [[f b1]| |]; bnd; try reflexivity.
+    destruct (src_plain src); simpl negb; simpl andb.
+    + simpl app. rewrite (proj1 exec_dest d Hd). destruct (eval_dest e d f b1) as [[[lf b3] ps1]| |]; bnd; try reflexivity.
+      simpl. bnd. rewrite concat_snoc. reflexivity.
+    + simpl. bnd. rewrite (denote_asset _ Ha). simpl. bnd. destruct (String.eqb (fasset f) (eval_asset e a)); simpl; [|reflexivity].
+      bnd. rewrite (proj1 exec_dest d Hd). destruct (eval_dest e d f b1) as [[[lf b3] ps1]| |]; bnd; try reflexivity.
+      simpl. bnd. rewrite concat_snoc. reflexivity.
+  - (* set_tx_meta *) simpl gen_stmt. norm. rewrite (exec_val v Hc). simpl exec_stmt.
+    destruct (eval_val e v) as [x| |]; bnd; try reflexivity. simpl. bnd. rewrite concat_snoc, app_nil_r. reflexivity.
+  - (* set_account_meta *) apply andb_prop in Hc. destruct Hc as [Hv Ha]. simpl gen_stmt. norm. rewrite (exec_val v Hv). simpl exec_stmt.
+    destruct (eval_val e v) as [x| |]; bnd; try reflexivity. simpl. bnd. rewrite (denote_acc _ Ha). simpl. bnd.
+    rewrite concat_snoc, app_nil_r. reflexivity.
+  - (* save monetary *) apply andb_prop in Hc. destruct Hc as [Hm Ha]. simpl gen_stmt. norm. rewrite code_mon_alloc. simpl.
+    rewrite (denote_mon_res m Hm), (denote_acc _ Ha). simpl exec_stmt. destruct (leaf_value e m) as [asset o]. simpl. bnd.
+    rewrite concat_snoc, app_nil_r. reflexivity.
+  - (* save all *) apply andb_prop in Hc. destruct Hc as [Ha Hacc]. simpl. rewrite (denote_asset _ Ha), (denote_acc _ Hacc). simpl. bnd.
+    rewrite concat_snoc, app_nil_r. reflexivity.
+  - reflexivity.
+Qed.
+
+Lemma exec_stmts_correct l : Forall (fun s => chk_stmt te s = true) l -> forall k stk ms,
+  exec L (code (flat_map (gen_stmt ve) l) ++ k) (vm_of ms stk) = do ms1 <- exec_stmts e l ms; exec L k (vm_of ms1 stk).
+Proof.
+  induction 1 as [|s l Hs _ IH]; intros k stk ms; simpl; [reflexivity|]. norm. rewrite (exec_stmt_correct s Hs).
+  destruct (exec_stmt e s ms) as [ms1| |]; bnd; try reflexivity. apply IH.
+Qed.
 End Correct.
